@@ -66,6 +66,15 @@ func runMain(args []string) {
 	for _, o := range order {
 		correspond(o, byOp[o], rep, *timeout)
 	}
+	{
+		var kept []*Case
+		for _, c := range cases {
+			if c.GoOut != "SKIPPED" {
+				kept = append(kept, c)
+			}
+		}
+		cases = kept
+	}
 	if post, ok := postChecks[*op]; ok {
 		post(cases, rep)
 	}
